@@ -15,6 +15,11 @@ the top widget and compares the canvas (as a cell grid, vlib.cells) with the ref
       were handed cols - bar_width;
   an event consumed by the probe leaf (it logs what it handles) leaves p unchanged.
 
+Besides the Hypothesis campaign a deterministic sweep (``_sweep_cases``) walks every position of every small
+content (0..3h+3 items / lines for every view height h) with the same interpreter and oracle; the harness decides
+by itself (rows * 3 < number of items: the scope stated in the two known findings) whether a ListBox is long enough for ScrollBar's
+item-based estimate, which is the only situation in which the two listed relative-mode findings are tolerated.
+
 Weaker-than-possible readings, deliberately:
   * nothing is asserted about *where* a key/wheel event scrolls to (the property only says the
     result is a valid window); only ``set_scrollpos(n)`` is compared with its docstring (lines from
@@ -46,13 +51,19 @@ RULE = (
     "probe (1..30 x 1..25, optional double-width characters, optionally selectable) or BigText (6 fonts); "
     "the same under ScrollBar (side left/right, width 1..3, 10 thumb/trough symbols, optional AttrMap in "
     "between); ScrollBar over ListBox (0..45 items of 1..3 rows incl. selectable probes; absolute and "
-    "relative scrollbar mode). View 1..20 x 1..10 (>= bar width + 1 columns). Ops: keys up/down/page up/"
+    "relative scrollbar mode; in a third of the ListBox cases the number of items is k * view rows + d, k in "
+    "1..4, d in -1..1, half of them starting at the top). View 1..20 x 1..10 (>= bar width + 1 columns). Ops: keys up/down/page up/"
     "page down/home/end/left/right/x/a/enter/tab/backspace, mouse press buttons 1/4/5 at any cell, "
     "set_scrollpos(-2^40..2^40, biased to small), resize, content change (set_text / contents insert, "
     "delete, relabel / fixed-probe resize / BigText text+font), scrollbar_side / scrollbar_width. Oracle "
     "after every op (slice of the harness's own full render; bar geometry). Non-trivial: the history "
     "reaches an end of a scrollable range (p == max > 0, or back to 0 after p > 0) and afterwards a resize "
-    "or content change is applied and checked."
+    "or content change is applied and checked. Before the random campaign a deterministic sweep "
+    "(small-views-every-position): every view height 1..6 (thorough 1..9) x every content size n in 0..3h+3 "
+    "under a ScrollBar: ListBox of n items (heights 1 / 2 / 3 / 1,2,3 cyclic / 3,1 cyclic; unselectable Text or "
+    "selectable probes) walked from the top to the end and back with down/up and with page down/page up, and "
+    "Scrollable over n Text lines put at every position 0..max+1 and -1..-(max+2) with set_scrollpos; same "
+    "oracle after every op."
 )
 ASSUMPTIONS = [
     "vlib.cells grid view of a canvas (C02) and the wcwidth table are the trusted base",
